@@ -20,7 +20,13 @@ mod c15_containers;
 #[cfg(kani)]
 mod c06_text;
 #[cfg(kani)]
-mod c01_roundtrip;
+mod c06_images;
+#[cfg(kani)]
+mod c15_images;
+#[cfg(kani)]
+mod c16_images;
+#[cfg(kani)]
+mod c01_images;
 #[cfg(kani)]
 mod c03_ops;
 #[cfg(kani)]
